@@ -72,7 +72,7 @@ def server_acts(spec, kind):
     return [a for a in spec['server'] if a[0] == kind]
 
 def faulty(spec):
-    return any(a[0] in ('eof', 'err', 'reply_noid', 'reply_unknown', 'dup') for a in spec['server']) or \
+    return spec.get('wfail') is not None or any(a[0] in ('eof', 'err', 'reply_noid', 'reply_unknown', 'dup') for a in spec['server']) or \
            any(op[0] == 'close' for ops in spec['clients'] for op in ops) or \
            (any(a[0] == 'other' for a in spec['server']) and spec.get('profile', 'default') in QUALIFY_OFF)
 
@@ -80,6 +80,8 @@ def oracle_c03(sc):
     """Each completed request holds the reply carrying its own id; ids unique; a late reply or a
     non-reply message disturbs nothing."""
     spec = sc.spec
+    if len(getattr(sc, 'reply_listeners', [])) > 1:
+        return ('%d reply listeners were installed on one session: every reply is dispatched to each of them and the one that does not know the id raises' % len(sc.reply_listeners), 'two_listeners')
     ids = [rpc.id for _, rpc in sc.rpcs]
     if len(set(ids)) != len(ids):
         return ('duplicate message-id on one session', 'dup_id')
@@ -115,13 +117,17 @@ def oracle_c04(sc):
     new requests are refused with a transport error."""
     spec = sc.spec
     loss = [a[0] for a in spec['server'] if a[0] in ('eof', 'err')]
+    if spec.get('wfail') is not None:
+        loss = ['wfail'] + loss
     if not loss or spec.get('eager'):
         return None
+    if sc.result == 'step-limit':
+        return ('the session thread spins without progress after the transport stopped accepting bytes: outstanding requests can only wait out their timeout', 'worker_spins')
     r = oracle_c03(sc)
     if r and r[1] == 'foreign_reply':
         return r
     # the fault only takes effect if the worker got to read it
-    fault_seen = any(e[1] == 'read' and e[2] in ('eof', 'err') for e in sc.S.effects[:sc.n_effects])
+    fault_seen = any((e[1] == 'read' and e[2] in ('eof', 'err')) or e[1] == 'wfail' for e in sc.S.effects[:sc.n_effects])
     if not fault_seen:
         return None
     if sc.connected_end:
@@ -129,19 +135,20 @@ def oracle_c04(sc):
     replied = {a[1] for a in server_acts(spec, 'reply')}
     for key, rpc in sc.rpcs:
         o = sc.outcomes.get(key)
+        registered_before_fault = True
         if rpc.id in sc.received and sc.received.index(rpc.id) not in replied:
             if o is None:
                 return ('request %s received by the server never completed' % rpc.id, 'never_completed')
             if o[0] == 'exc' and o[1] == 'TimeoutExpiredError':
                 effs = sc.S.effects[:sc.n_effects]
-                fi = next((i for i, e in enumerate(effs) if e[1] == 'read' and e[2] in ('eof', 'err')), None)
+                fi = next((i for i, e in enumerate(effs) if (e[1] == 'read' and e[2] in ('eof', 'err')) or e[1] == 'wfail'), None)
                 wi = next((i for i, e in enumerate(effs) if e[1] == 'waitres' and e[2] is getattr(rpc, '_event', None)), None)
                 if fi is not None and wi is not None and wi > fi:
                     return ('request %s waited out its timeout after the connection was lost' % rpc.id, 'waited_timeout')
                 continue
             if o[0] == 'reply':
                 return ('request %s returned a reply although the server never answered it' % rpc.id, 'foreign_reply')
-            if loss[0] == 'eof' and o[1] not in ('SessionCloseError', 'TransportError'):
+            if loss[0] in ('eof', 'wfail') and o[1] not in ('SessionCloseError', 'TransportError'):
                 return ('request %s raised %s, not a transport error, after the peer closed' % (rpc.id, o[1]), 'wrong_error')
     for ci, ops in enumerate(spec['clients']):
         after = False
@@ -214,6 +221,9 @@ def gen_spec(rng, pid):
             server.append(('reply', k))
         if rng.random() < 0.5: server.insert(rng.randint(0, len(server)), ('wait_all',))
         server.append((rng.choice(['eof', 'eof', 'err']),))
+        wf = None
+        if rng.random() < 0.3:        # the loss is a failed client write instead: k-th write call returns 0 (after a short write)
+            server = [a for a in server if a[0] == 'reply' and False] ; wf = [rng.randint(0, max(0, nreq - 1)), rng.choice([0, 0, 1, 17])]
         if rng.random() < 0.6:      # a thread issuing requests while the failure is processed / afterwards
             clients.append([('rpc', rng.random() < 0.5)] if rng.random() < 0.5 else [('await_disc',), ('rpc', True)])
         profile = rng.choice(['default', 'junos'])
@@ -228,7 +238,10 @@ def gen_spec(rng, pid):
         cons = [('take', rng.random() < 0.5) for _ in range(rng.randint(1, nn + 1))]
         if rng.random() < 0.5: clients.append(cons)
         else: clients[0] = clients[0] + cons
-    return dict(profile=profile, clients=clients, server=server, eager=eager)
+    d = dict(profile=profile, clients=clients, server=server, eager=eager)
+    if pid == 'C04' and wf is not None:
+        d['wfail'] = wf
+    return d
 
 SMALL = {
     'C03': [dict(profile='default', clients=[[('rpc', True)], [('rpc', True)]], server=[('reply', 1), ('reply', 0)], eager=False),
@@ -236,7 +249,9 @@ SMALL = {
             dict(profile='default', clients=[[('rpc', True)], [('rpc', True)]], server=[('reply', 0)], eager=True)],
     'C04': [dict(profile='default', clients=[[('rpc', False), ('rpc', False)], [('rpc', True)]], server=[('wait_all',), ('eof',)], eager=False),
             dict(profile='default', clients=[[('rpc', True)], [('rpc', False)]], server=[('reply', 0), ('err',)], eager=False),
-            dict(profile='default', clients=[[('rpc', False), ('rpc', False), ('rpc', False)], [('rpc', False)]], server=[('eof',)], eager=False)],
+            dict(profile='default', clients=[[('rpc', False), ('rpc', False), ('rpc', False)], [('rpc', False)]], server=[('eof',)], eager=False),
+            dict(profile='default', clients=[[('rpc', False), ('rpc', True)]], server=[], eager=False, wfail=[1, 17]),
+            dict(profile='default', clients=[[('rpc', True)], [('rpc', False)]], server=[], eager=False, wfail=[0, 0])],
     'C11': [dict(profile='junos', clients=[[('rpc', True), ('take', False)], [('take', True)]], server=[('notif', 1), ('reply', 0), ('notif', 2)], eager=False),
             dict(profile='default', clients=[[('rpc', True)], [('take', True), ('take', False)]], server=[('reply', 0), ('notif', 1)], eager=False)],
 }
@@ -260,9 +275,36 @@ def dfs_schedules(spec, bound, cap):
                 if alt != i:
                     stack.append(([c[0] for c in ch[:j]] + [alt], pre + 1))
 
+def two_sessions_case():
+    """Two live sessions in one process: a notification dispatched on one is taken from that one only."""
+    from . import lts, sched
+    from ncclient.manager import make_device_handler
+    from ncclient.transport.session import NotificationHandler
+    sched.S = sched.Sched()
+    lts.install()
+    dh = make_device_handler({'name': 'default'})
+    cls = lts.make_session_class()
+    a, b = cls(dh, lts.FakeSock()), cls(dh, lts.FakeSock())
+    for s in (a, b):
+        s.add_listener(NotificationHandler(s._notification_q))
+    a._dispatch_message(lts.notif_xml(1)); a._dispatch_message(lts.notif_xml(2))
+    got_b = b.take_notification(False, None)
+    got_a = [a.take_notification(False, None) for _ in range(3)]
+    if got_b is not None:
+        return 'a notification sent on one session was returned by take_notification of another session'
+    xs = [None if g is None else g.notification_xml for g in got_a]
+    if xs != [lts.notif_xml(1), lts.notif_xml(2), None]:
+        return 'session A took %r instead of its two notifications in order' % (xs,)
+    return None
+
 def check(ctx, pid, n_random, dfs_bound, dfs_cap, corpus=()):
     """Common body of the C03 / C04 / C11 plugins."""
     oracle = ORACLES[pid]
+    if pid == 'C11':
+        f = two_sessions_case()
+        ctx.count({'check': 'two_sessions'}, key='two_sessions')
+        if f:
+            ctx.fail({'check': 'two_sessions'}, f, sig=None, expected='sessions do not share notifications', actual=f)
     runs = []
     for doc in corpus:
         runs.append(run_case(doc['spec'], decisions=list(doc['decisions']), rng_after=False))
@@ -295,6 +337,10 @@ def check(ctx, pid, n_random, dfs_bound, dfs_cap, corpus=()):
 
 def search(ctx, pid, seeds, n=1500):
     oracle = ORACLES[pid]
+    if pid == 'C11':
+        f = two_sessions_case()
+        if f:
+            return dict(case={'check': 'two_sessions'}, what=f, sig=None, expected='sessions do not share notifications', actual=f)
     for c in seeds:
         for extra in range(40):
             sc = run_case(c['spec'], decisions=list(c['decisions']) if extra == 0 else None, seed=extra, rng_after=(extra != 0))
@@ -316,6 +362,8 @@ def search(ctx, pid, seeds, n=1500):
 
 def replay(doc, pid):
     c = doc['case']
+    if c.get('check') == 'two_sessions':
+        f = two_sessions_case(); print('two sessions:', f or 'holds'); return f is None
     spec = c['spec']
     spec['clients'] = [[tuple(op) for op in ops] for ops in spec['clients']]
     spec['server'] = [tuple(a) for a in spec['server']]
